@@ -449,7 +449,7 @@ def conc_case(draw):
     n = draw(st.integers(2, 3))
     block = [draw(c05.op_strategy(0, i)) for i in range(draw(st.integers(1, 4)))]
     # (closing the connection that holds the open transaction is misuse, not a client of the property)
-    block = [op for op in block if op[0] not in ('list', 'close')] or [('set', 'x', ('s', 'c0.0'))]
+    block = [op for op in block if op[0] not in ('list', 'close', 'open')] or [('set', 'x', ('s', 'c0.0'))]
     progs = [[('block', tuple(block), draw(st.booleans()))]]
     for c in range(1, n):
         progs.append([draw(c05.op_strategy(c, i)) for i in range(draw(st.integers(1, 3)))])
@@ -577,7 +577,7 @@ class FanoutConcurrentBlocks(ConcurrentBlocks):
             base = draw(conc_case())
             # a second block client
             block2 = [draw(c05.op_strategy(1, i)) for i in range(draw(st.integers(1, 3)))]
-            block2 = [op for op in block2 if op[0] not in ('list', 'close')] or [('set', 'y', ('s', 'c1.0'))]
+            block2 = [op for op in block2 if op[0] not in ('list', 'close', 'open')] or [('set', 'y', ('s', 'c1.0'))]
             progs = list(base['progs'])
             progs[1] = [('block', tuple(block2), draw(st.booleans()))]
             if len(progs) < 3:
@@ -591,11 +591,14 @@ class FanoutConcurrentBlocks(ConcurrentBlocks):
         import diskcache
 
         n = len(case['progs'])
+        shard_of = {}
 
         def open_clients(path):
             fcs = [diskcache.FanoutCache(path, shards=case['shards'], timeout=0, disk_min_file_size=64) for _ in range(n)]
             for k, spec in case['init'].items():
                 fcs[0].set(k, c05.mk(spec))
+            for k in c05.KEYS + ['n']:
+                shard_of[k] = fcs[0]._hash(k) % case['shards']
             return fcs, fcs
 
         def warm(fc):
@@ -611,23 +614,56 @@ class FanoutConcurrentBlocks(ConcurrentBlocks):
         for c in lin:
             if c.result[0] == 'exc' and c.result[1] not in ('KeyError',) and c.op[0] != 'setbad':
                 raise Violation('C06/concurrent/unexpected-exception/%s' % c.result[1], 'call %r\n%s' % (c, fmt(calls)))
+        # len(FanoutCache) adds up the shards one after the other: under contention it is an aggregate that is not one atomic
+        # read even without any block (that is C13's subject), so an overlapped len() of a plain client is not judged here
+        lin = [c for c in lin if not (c.op[0] == 'len' and c.client != -1 and any(o.client != c.client and overlaps(o, c) for o in lin))]
 
-        def skippable(c):
-            if c.op[0] in ('get', 'getitem', 'getexp') and c05.is_miss(c):
-                k = c05.op_key(c.op)
-                for o in lin:
-                    if o is c or o.client == c.client or not overlaps(o, c):
-                        continue
-                    inner = o.op[1] if o.op[0] == 'block' else [o.op]
-                    if any(i[0] in c05.WRITES and c05.op_key(i) == k for i in inner):
-                        return True
-            return False
+        def skippable_in(history):
+            def skippable(c):
+                if c.op[0] in ('get', 'getitem', 'getexp') and c05.is_miss(c):
+                    k = c05.op_key(c.op)
+                    for o in history:
+                        if o is c or o.client == c.client or not overlaps(o, c):
+                            continue
+                        inner = o.op[1] if o.op[0] == 'block' else [o.op]
+                        if any(i[0] in c05.WRITES and c05.op_key(i) == k for i in inner):
+                            return True
+                return False
 
-        if linearize(lin, init_state, model_apply, lambda s: s, skippable) is None:
-            raise Violation('C06/concurrent/not-atomic/fanout', 'no order with each FanoutCache.transact() block as ONE atomic call explains these results (initial %r):\n%s' % (init_state, fmt(calls)))
+            return skippable
+
+        classes = ['shards=%d' % case['shards']]
+        if linearize(lin, init_state, model_apply, lambda s: s, skippable_in(lin)) is None:
+            # Is it the shard-by-shard commit?  Weaker reference: every block is atomic PER SHARD (its operations on the keys of
+            # one shard are one atomic call), the shards' parts taking effect at independent instants inside the block's interval.
+            split = []
+            nid = max(c.cid for c in lin) + 1
+            for c in lin:
+                if c.op[0] != 'block' or c.result[0] != 'ok':
+                    split.append(c)
+                    continue
+                verdict, results = c.result[1]
+                groups = {}
+                for inner, res in zip(c.op[1], results):
+                    k = c05.op_key(inner)
+                    if k is not None:
+                        groups.setdefault(shard_of.get(k, k), []).append((inner, res))
+                for _, items in sorted(groups.items(), key=lambda kv: str(kv[0])):
+                    part = Call(nid, c.client, ('block', tuple(i for i, _ in items), c.op[2]), c.inv)
+                    nid += 1
+                    part.res = c.res
+                    part.result = ('ok', (verdict, tuple(r for _, r in items)))
+                    split.append(part)
+            detail = 'no order with each FanoutCache.transact() block as ONE atomic call explains these results (initial %r):\n%s' % (init_state, fmt(calls))
+            if len(split) > len(lin) and linearize(split, init_state, model_apply, lambda s: s, skippable_in(split)) is not None:
+                raise Violation(
+                    'C06/fanout/commit-visible-shard-by-shard',
+                    detail + '\n(the history IS explained when every block is atomic per shard only: the shards commit one after the other and a reader saw some shards committed, others not)',
+                )
+            raise Violation('C06/concurrent/not-atomic/fanout', detail)
         blocks = [c for c in lin if c.op[0] == 'block']
         both = len(blocks) >= 2 and overlaps(blocks[0], blocks[1])
-        return {'nontrivial': both, 'classes': ['shards=%d' % case['shards']] + (['blocks-overlap'] if both else [])}
+        return {'nontrivial': both, 'classes': classes + (['blocks-overlap'] if both else [])}
 
 
 class ProcessBlocks(ConcurrentBlocks):
